@@ -24,6 +24,7 @@ def case_st(draw):
          "comment": draw(st.sampled_from([None, None, b"hello"])),
          "extra": draw(st.sampled_from([None, None, b"AB\x04\x00data"])),
          "hcrc": draw(st.booleans()), "mtime": draw(st.sampled_from([0, 1, 0x7FFFFFFF])),
+         "align": draw(st.sampled_from([None, None, [512, 0], [512, 1], [512, 511], [1024, 0], [1024, 1], [512, 100]])),
          "tailcut": draw(st.sampled_from([0, 0, 1, 255, 256, 257, 511, 513, 1023, 1025])),
          "seed": draw(st.integers(0, 10 ** 6)), "cmds": draw(st.lists(st.integers(0, len(COMMANDS) - 1), min_size=2,
                                                                      max_size=4, unique=True))}
@@ -36,7 +37,8 @@ class C10(CheckBase):
     variants = ("dbg", "asan")
     rule = ("generated image files of every container (ssd/sdd/dsd/ddd/mmb/hfe/mfm, Acorn/Watford/Opus, lengths cut "
             "to values around multiples of the 512/1024-byte decompression buffers) compressed with Python zlib at "
-            "levels 0-9, optional FNAME/FCOMMENT/FEXTRA/FHCRC/MTIME header fields, 1-3 gzip members.  Positive: "
+            "levels 0-9, optional FNAME/FCOMMENT/FEXTRA/FHCRC/MTIME header fields, 1-3 gzip members whose ends are "
+            "optionally padded (FEXTRA) onto / next to multiples of the 512- and 1024-byte buffers.  Positive: "
             "stdout and exit status of 2-4 commands on X.gz equal those on X.  Negative: every truncation point of "
             "the .gz (all when <= 2 KiB, else 100), single-bit flips, a raw image renamed .gz, an empty file; an "
             "independent inflater (Python zlib, member loop) is the referee: if it rejects the stream dfs must exit "
@@ -81,7 +83,8 @@ class C10(CheckBase):
             data = data[:len(data) - case["tailcut"]]
         ext = img_case["ext"]
         gzdata = containers.gz(data, level=case["level"], fname=case["fname"], mtime=case["mtime"],
-                               members=case["members"], extra=case["extra"], comment=case["comment"], hcrc=case["hcrc"])
+                               members=case["members"], extra=case["extra"], comment=case["comment"], hcrc=case["hcrc"],
+                               align=tuple(case["align"]) if case.get("align") else None)
         assert containers.gunzip_reference(gzdata) == data
         mode = case["mode"]
         cl = ["mode-" + mode, "ext-" + ext]
@@ -89,6 +92,8 @@ class C10(CheckBase):
             cl.append("size-not-multiple-of-512")
         if case["members"] > 1:
             cl.append("members>=2")
+        if case.get("align"):
+            cl.append("member-ends-aligned-to-buffer")
         v.classes.extend(cl)
         with runtool.Sandbox("c10") as sb:
             out = sb.mkdir("out")
